@@ -5,6 +5,7 @@ package harness
 // value canonicalisation.  See /verif/DESIGN.md §2.
 
 import (
+	"context"
 	"encoding/json"
 	"flag"
 	"fmt"
@@ -581,7 +582,18 @@ func waitOrDie(done <-chan struct{}, what string) {
 	}
 }
 
-func runCheck(tb *recTB, prop func(*rapid.T)) {
+// ctxTB is a recTB that, like *testing.T since Go 1.24, offers a Context of its own (rapid derives the
+// contexts of its test cases from it)
+type ctxTB struct {
+	*recTB
+	ctx context.Context
+}
+
+func (c ctxTB) Context() context.Context { return c.ctx }
+
+func runCheck(tb *recTB, prop func(*rapid.T)) { runCheckAs(tb, tb, prop) }
+
+func runCheckAs(tb *recTB, as rapid.TB, prop func(*rapid.T)) {
 	done := make(chan struct{})
 	go func() {
 		defer close(done)
@@ -593,7 +605,7 @@ func runCheck(tb *recTB, prop func(*rapid.T)) {
 				tb.mu.Unlock()
 			}
 		}()
-		rapid.Check(tb, prop)
+		rapid.Check(as, prop)
 		tb.mu.Lock()
 		tb.returned = true
 		tb.mu.Unlock()
